@@ -9,15 +9,29 @@ RULE = ("one case: the complete table of (command, option, DefValue, current val
         "the source, over which the Coq theorems are stated; non-trivial = the table has > 200 options; the second "
         "distinct case re-reads the table and then runs the root command's pre-run hook and re-reads the global options; the "
         "third gives every option of every command its documented default explicitly through the command's own ParseFlags "
-        "(--name v, --name=v, -s v) and reads back value, left-over words and error")
+        "(--name v, --name=v, -s v) and reads back value, left-over words and error; "
+        "end to end (extra): the real gotree binary is run for every command that has a recipe (E2E_RECIPES, 66 of the 78 leaf commands; "
+        "small fixed inputs, --seed fixed for random commands) once with every option omitted and once per registered option (local and "
+        "inherited persistent, taken from the generated table) with --name=<documented default>: exit code, stdout and every file created or "
+        "modified must be identical (both tiers run every pair; thorough adds all defaults together); a recipe that no longer runs "
+        "successfully is itself reported; for the options in E2E_LIVE a value different from the default must change the output (the "
+        "command reads the variable it registered); for the commands in E2E_IDENTITY the output with all options omitted must be the "
+        "unchanged input tree")
 TRUSTED = ["tools/gotrans (go/ast + go/types): extraction of the registration table from cmd/*.go, cross-checked against the run-time table",
            "pflag: XVar(&v, ..., default, ...) assigns default to v at registration and records DefValue (modelled in Model/Flags.v)"]
-ASSUMPTIONS = ["a command reads its option through the bound variable", "cobra/pflag parse only the options given on the command line"]
+ASSUMPTIONS = ["a command reads its option through the bound variable (tested end to end for the options listed in E2E_LIVE, assumed for the others)",
+               "cobra/pflag parse only the options given on the command line"]
 LEVEL_TEXT = ("Theorem over the registration table regenerated from the source on every run: after all registrations every option's "
               "bound variable holds the documented default (vm_compute on the generated table) and, in general, this holds iff no two "
               "registrations bind one variable to different defaults; the table is tied to the running code by comparing it with the "
-              "table observed from cmd.RootCmd.")
-LEVEL_NOTE = "Trusted: translator, pflag registration semantics as modelled, Coq kernel/vm_compute. Behaviour of each command beyond reading its variables is not modelled."
+              "table observed from cmd.RootCmd.  Beyond the table, the property's own observation point is tested: for every command with a "
+              "recipe and every option registered for it (local or inherited), the gotree binary gives byte-identical results (exit code, stdout, "
+              "files written) with the option omitted and with its documented default given explicitly.")
+LEVEL_NOTE = ("Trusted: translator, pflag registration semantics as modelled, Coq kernel/vm_compute. Behaviour of each command beyond reading its variables is not modelled "
+              "in Coq; it is tested end to end on one small input per command (counts, skipped pairs and commands without a recipe are in coverage.extra.e2e): "
+              "omitted vs. explicit default for every registered option, liveness of 89 options, identity-at-default for 7 commands. Not covered: commands "
+              "without a recipe (network commands, and those needing inputs not set up), options set by the recipe itself (-i, --seed of random commands, ...), "
+              "and a Run function that replaces a default value by another value for a command outside E2E_IDENTITY (omitted and explicit runs are affected alike).")
 
 def gen(rng, tier):
     return [{"sx": sx({"op": Sym("flags")}), "meta": {"op": "flags"}},
@@ -43,9 +57,289 @@ def _tables():
     changed = re.findall(r'\("([^"]*)", "([^"]*)", "([^"]*)"\)', m.group(1)) if m else []
     return regs, changed
 
+# ---------------------------------------------------------------------------------------------------------
+# End-to-end differential for every command that has a recipe: option omitted vs. documented default explicit.
+# Arguments after the command path; {x} = generated input file / tip name.  Flags set here are not tested.
+E2E_RECIPES = {
+    "stats": "-i {tree}", "stats edges": "-i {tree}", "stats nodes": "-i {tree}", "stats tips": "-i {tree}",
+    "stats splits": "-i {tree}", "stats rooted": "-i {tree}", "stats monophyletic": "-i {rooted} -l {tips}",
+    "brlen add": "-i {tree}", "brlen clear": "-i {tree}", "brlen cut": "-i {rooted}", "brlen round": "-i {tree}",
+    "brlen scale": "-i {tree}", "brlen set": "-i {tree}", "brlen setmin": "-i {tree}", "brlen setrand": "-i {tree} --seed 3",
+    "collapse clade": "-i {rooted} -l {tips}", "collapse depth": "-i {tree}", "collapse length": "-i {tree}",
+    "collapse single": "-i {tree}", "collapse support": "-i {tree}",
+    "comment clear": "-i {tree}", "comment transfer": "-i {tree}",
+    "compare edges": "-i {tree} -c {tree2}", "compare tips": "-i {tree} -c {tree2}", "compare trees": "-i {tree} -c {boot}",
+    "compute bipartitiontree": "-i {tree} -f {tips}", "compute consensus": "-i {boot}", "compute edgetrees": "-i {tree}",
+    "compute support fbp": "-i {tree} -b {boot}", "compute support tbe": "-i {tree} -b {boot}",
+    "compute roccurve": "-i {tree2} -r {tree}",
+    "divide": "-i {boot}", "draw text": "-i {tree}", "draw svg": "-i {tree} -o out.svg", "draw png": "-i {tree} -o out.png",
+    "draw cyjs": "-i {tree}",
+    "generate yuletree": "--seed 1", "generate uniformtree": "--seed 1", "generate balancedtree": "--seed 1",
+    "generate caterpillartree": "--seed 1", "generate startree": "--seed 1", "generate topologies": "-l 4 --seed 1",
+    "labels": "-i {tree}", "ltt": "-i {rooted}", "matrix": "-i {tree}", "nni": "-i {small}",
+    "prune": "-i {tree} {tip0} {tip1}", "reformat newick": "-i {tree}", "reformat nexus": "-i {tree}",
+    "reformat phyloxml": "-i {tree}", "rename": "-i {tree} -m {map}",
+    "reroot midpoint": "-i {tree}", "reroot outgroup": "-i {tree} {tip0} {tip1}",
+    "resolve": "-i {multi} --seed 1", "rotate sort": "-i {tree}", "rotate rand": "-i {tree} --seed 1",
+    "sample": "-i {boot} --seed 1", "shuffletips": "-i {tree} --seed 1",
+    "support clear": "-i {tree}", "support round": "-i {tree}", "support scale": "-i {tree}",
+    "support setrand": "-i {tree} --seed 1", "unroot": "-i {rooted}", "annotate": "-i {tree} -c {tree2}",
+    "acr": "-i {rooted} --states {states} --seed 1", "version": "",
+}
+# why some commands have no recipe
+E2E_NO_RECIPE = {
+    "download itol": "network", "download ncbitax": "network", "download panther": "network", "upload itol": "network",
+    "asr": "needs an alignment and a model; not set up", "compute mutations": "needs an alignment; not set up",
+    "collapse name": "needs a file of branch names/ids; not set up", "graft": "needs a second tree with disjoint tips; not set up",
+    "merge": "needs two trees sharing exactly one tip; not set up", "repopulate": "needs a group file; not set up",
+    "subtree": "needs a named internal node; not set up", "resolve named": "needs named internal nodes; not set up",
+}
+# (command, option) not run, with the reason
+E2E_SKIP = {
+    ("draw png", "output"): "set by the recipe", 
+}
+# options that are known (on the reference checkout, with the recipe's input) to change the output when given the
+# alternative value computed by _alt(): the command really reads the variable the option is bound to.  A pair listed
+# here whose alternative value no longer changes anything is reported.
+E2E_LIVE = {
+    'acr --random-resolve', 'annotate --comment', 'brlen add --add-length', 'brlen clear --external',
+    'brlen clear --internal', 'brlen round --external', 'brlen round --internal', 'brlen round --precision',
+    'brlen scale --factor', 'brlen set --external', 'brlen set --internal', 'brlen set --length',
+    'brlen setmin --length', 'brlen setrand --external', 'brlen setrand --internal', 'brlen setrand --max-len',
+    'brlen setrand --mean', 'brlen setrand --min-len', 'collapse clade --strict', 'collapse depth --max-depth',
+    'collapse length --length', 'collapse support --support', 'compare trees --binary', 'compare trees --rf',
+    'compare trees --tips', 'compare trees --weighted', 'compute consensus --freq-min', 'compute edgetrees --deepest',
+    'compute edgetrees --text-format', 'compute roccurve --length-geq', 'compute roccurve --length-leq', 'compute roccurve --max',
+    'compute roccurve --min', 'compute roccurve --step', 'draw cyjs --with-branch-support', 'draw png --circular',
+    'draw png --fill-background', 'draw png --height', 'draw png --no-branch-lengths', 'draw png --no-tip-labels',
+    'draw png --radial', 'draw png --width', 'draw png --with-branch-support', 'draw png --with-node-comments',
+    'draw png --with-node-symbols', 'draw svg --circular', 'draw svg --height', 'draw svg --no-branch-lengths',
+    'draw svg --no-tip-labels', 'draw svg --radial', 'draw svg --width', 'draw svg --with-branch-support',
+    'draw svg --with-node-comments', 'draw svg --with-node-labels', 'draw svg --with-node-symbols', 'draw text --no-branch-lengths',
+    'draw text --no-tip-labels', 'draw text --width', 'draw text --with-branch-support', 'draw text --with-node-comments',
+    'generate balancedtree --depth', 'generate balancedtree --nbtrees', 'generate balancedtree --rooted', 'generate caterpillartree --nbtips',
+    'generate caterpillartree --nbtrees', 'generate caterpillartree --rooted', 'generate startree --nbtips', 'generate startree --nbtrees',
+    'generate topologies --rooted', 'generate uniformtree --nbtips', 'generate uniformtree --nbtrees', 'generate uniformtree --rooted',
+    'generate yuletree --nbtips', 'generate yuletree --nbtrees', 'generate yuletree --rooted', 'labels --tips',
+    'prune --random', 'prune --revert', 'reformat nexus --translate', 'rename --add-quotes',
+    'rename --auto', 'rename --revert', 'rename --rm-quotes', 'rename --tips',
+    'reroot outgroup --remove-outgroup', 'sample --nbtrees', 'sample --replace', 'support round --precision',
+    'support scale --factor',
+}
+E2E_INPUT_SEED = 1
+# commands whose documented defaults make them the identity on the recipe's input: with every option omitted the output
+# must be the input tree as `gotree reformat newick` prints it (catches a Run function that replaces the default value
+# by another one, which the omitted-vs-explicit differential cannot see because both runs are affected alike)
+E2E_IDENTITY = ["brlen add", "brlen scale", "brlen setmin", "support scale", "collapse length", "collapse support", "collapse depth"]
+# alternative values chosen by hand where default+delta does not change the output on the recipe's input
+E2E_ALT = {("collapse length", "length"): "1.5", ("brlen cut", "max-length"): "0.1", ("collapse support", "support"): "0.6",
+           ("draw text", "support-cutoff"): "0.3", ("draw svg", "support-cutoff"): "0.3", ("draw png", "support-cutoff"): "0.3",
+           ("compute support tbe", "dist-cutoff"): "0.01", ("compute roccurve", "length-geq"): "1.5", ("compute roccurve", "pvalue"): "0.01",
+           ("collapse depth", "min-depth"): "1", ("collapse depth", "max-depth"): "3"}
+
+def _alt(kind, dflt):
+    """a value different from the documented default, or None"""
+    try:
+        if kind == "Bool":
+            return "false" if dflt == "true" else "true"
+        if kind in ("Int", "Int64"):
+            return str(int(dflt) + 2)
+        if kind == "Float64":
+            return repr(float(dflt) + 0.25) if float(dflt) >= 0 else "0.25"
+    except ValueError:
+        pass
+    return None
+
+def _cmd_tree():
+    """all command paths of the binary, from its help texts"""
+    out = []
+    def subs(path):
+        rc, so, se = cli.run(path + ["--help"], build.BUILD)
+        m = re.search(r"Available Commands:\n(.*?)\n\n", so.decode("utf-8", "replace"), re.S)
+        return [l.split()[0] for l in m.group(1).splitlines() if l.split()] if m else []
+    def walk(p):
+        ss = [s for s in subs(p) if s not in ("help", "completion")]
+        for s in ss:
+            out.append((" ".join(p + [s])))
+            walk(p + [s])
+    walk([])
+    return out
+
+def _e2e(tier, rng, g, d, regs, presence_pairs):
+    from concurrent.futures import ThreadPoolExecutor
+    import time
+    t0 = time.time()
+    info = {"commands_with_recipe": 0, "pairs_run": 0, "pairs_skipped": {}, "commands_without_recipe": {}, "liveness_run": 0,
+            "liveness_changed_output": 0, "liveness_asserted": 0, "not_nontrivial": []}
+    fails = []
+    inp = os.path.join(d, "in")
+    os.makedirs(inp)
+    P = lambda n: os.path.join(inp, n)
+    def gt(argv, stdin=None):
+        rc, so, se = cli.run(argv, inp, stdin=stdin)
+        if rc != 0:
+            raise RuntimeError("input preparation failed: gotree %s: %s" % (" ".join(argv), se[-200:]))
+        return so
+    import random
+    g = Gen(random.Random(E2E_INPUT_SEED))   # fixed inputs: every recipe is known to run successfully on them
+    t = g.tree(ntips=10, rooted=False, maxdeg=2, lenmode="all", supmode="all")
+    open(P("tree.nw"), "w").write(newick(t) + "\n")
+    open(P("multi.nw"), "w").write(newick(g.tree(ntips=10, rooted=False, maxdeg=4, lenmode="all", supmode="all")) + "\n")
+    open(P("small.nw"), "w").write("((a:1,b:2)0.5:1,c:0.25,(d:1,e:0.5)0.75:2);\n")
+    names = gt(["labels", "-i", P("tree.nw")]).decode().split()
+    open(P("rooted.nw"), "wb").write(gt(["reroot", "midpoint", "-i", P("tree.nw")]))
+    open(P("tree2.nw"), "wb").write(gt(["shuffletips", "--seed", "2", "-i", P("tree.nw")]))
+    open(P("boot.nw"), "wb").write(b"".join(gt(["shuffletips", "--seed", str(k), "-i", P("tree.nw")]) for k in (1, 2, 3, 1, 5)))
+    open(P("map.txt"), "w").write("".join("%s\tN%d\n" % (n, i) for i, n in enumerate(names)))
+    open(P("tips.txt"), "w").write("".join(n + "\n" for n in names[:3]))
+    open(P("states.txt"), "w").write("".join("%s,%s\n" % (n, "AB"[i % 2]) for i, n in enumerate(names)))
+    # every run gets its own copy of the inputs in its working directory (rename --auto writes its map file)
+    subst = {"tree": "tree.nw", "tree2": "tree2.nw", "boot": "boot.nw", "multi": "multi.nw", "small": "small.nw",
+             "rooted": "rooted.nw", "map": "map.txt", "tips": "tips.txt", "states": "states.txt",
+             "tip0": names[0], "tip1": names[1]}
+    inputs = {f: open(P(f), "rb").read() for f in os.listdir(inp)}
+
+    paths = _cmd_tree()
+    leaves = [p for p in paths if not any(q.startswith(p + " ") for q in paths)]
+    for p in leaves:
+        if p not in E2E_RECIPES:
+            info["commands_without_recipe"][p] = E2E_NO_RECIPE.get(p, "no recipe written")
+    info["recipes_for_unknown_commands"] = sorted(set(E2E_RECIPES) - set(paths))
+
+    def flags_of(p):
+        """local options of the command and persistent options of its ancestors (the nearest registration wins)"""
+        full = "gotree " + p if p else "gotree"
+        words = full.split()
+        res = {}
+        for k in range(1, len(words) + 1):
+            anc = " ".join(words[:k])
+            for r in regs:
+                if r[0] == anc and (k == len(words) or r[6] == "true"):
+                    res[r[1]] = r
+        return res
+
+    jobs = {}      # key -> argv
+    plan = []      # (cmd, flag, given, altgiven or None)
+    for p, rec in E2E_RECIPES.items():
+        if p not in paths:
+            continue
+        info["commands_with_recipe"] += 1
+        base = p.split() + [w.format(**subst) for w in rec.split()]
+        jobs[(p, None, "omitted")] = base
+        fl = flags_of(p)
+        short = {r[2]: n for n, r in fl.items() if r[2]}
+        used = set()
+        for w in rec.split():
+            if w.startswith("--"):
+                used.add(w[2:].split("=")[0])
+            elif w.startswith("-") and len(w) == 2:
+                used.add(short.get(w[1], w[1]))
+        allgiven = []
+        for n, r in sorted(fl.items()):
+            kind, dflt = r[3], r[5].replace('""', '"')
+            why = None
+            if n in used:
+                why = "set by the recipe"
+            elif (p, n) in E2E_SKIP:
+                why = E2E_SKIP[(p, n)]
+            elif ("gotree " + p, n) in presence_pairs:
+                why = "already run by the presence-test differential above"
+            elif kind not in ("Bool", "Int", "Int64", "Float64", "String"):
+                why = "default of type %s (%s) is not expressible as one --name=value" % (kind, dflt)
+            if why:
+                info["pairs_skipped"]["%s --%s" % (p, n)] = why
+                continue
+            given = "--%s=%s" % (n, dflt)
+            jobs[(p, n, "given")] = base + [given]
+            alt = E2E_ALT.get((p, n)) or _alt(kind, dflt)
+            if alt is not None:
+                jobs[(p, n, "alt")] = base + ["--%s=%s" % (n, alt)]
+            plan.append((p, n, given, alt))
+            allgiven.append(given)
+        if tier != "quick" and len(allgiven) > 1:
+            jobs[(p, "*", "given")] = base + allgiven
+            plan.append((p, "*", " ".join(allgiven), None))
+
+    def runjob(item):
+        (key, argv) = item
+        sub = os.path.join(d, "r%d" % runjob.ids[key])
+        os.makedirs(sub)
+        for f in inputs:
+            if f in argv:
+                open(os.path.join(sub, f), "wb").write(inputs[f])
+        tj = time.time()
+        rc, so, se = cli.run(argv, sub, stdin=b"")
+        slow.append((round(time.time() - tj, 2), " ".join(argv)))
+        files = {}     # files created or modified by the run
+        for root, _, fs in os.walk(sub):
+            for f in fs:
+                rel = os.path.relpath(os.path.join(root, f), sub)
+                b = open(os.path.join(root, f), "rb").read()
+                if inputs.get(rel) != b:
+                    files[rel] = b
+        shutil.rmtree(sub, ignore_errors=True)
+        return key, (rc, so, sorted(files.items())), se
+    runjob.ids = {k: i for i, k in enumerate(jobs)}
+    slow = []
+    with ThreadPoolExecutor(16) as ex:
+        res = {k: (o, se) for k, o, se in ex.map(runjob, list(jobs.items()))}
+
+    def show(o):
+        return ("rc=%d stdout=%r files=%r" % (o[0], o[1][:300], [(n, b[:120]) for n, b in o[2]]))[:900]
+    info["identity_at_default"] = 0
+    for p in E2E_IDENTITY:
+        if (p, None, "omitted") in res and ("reformat newick", None, "omitted") in res and E2E_RECIPES[p] == E2E_RECIPES["reformat newick"]:
+            om, ref = res[(p, None, "omitted")][0], res[("reformat newick", None, "omitted")][0]
+            info["identity_at_default"] += 1
+            if om != ref:
+                a, b = jobs[(p, None, "omitted")], jobs[("reformat newick", None, "omitted")]
+                fails.append(("e2e-identity:" + p, "`gotree %s` with every option omitted should leave the tree unchanged under the documented defaults, but differs from `gotree %s`: %s ; %s"
+                              % (" ".join(a), " ".join(b), show(om), show(ref)),
+                              {"cmdline_omitted": "gotree " + " ".join(a), "cmdline_reference": "gotree " + " ".join(b), "out_omitted": show(om), "out_reference": show(ref)}))
+    live_seen = []
+    for p, n, given, alt in plan:
+        om, om_err = res[(p, None, "omitted")]
+        gv, gv_err = res[(p, n, "given")]
+        info["pairs_run"] += 1
+        nontriv = om[0] == 0 and (len(om[1]) > 0 or len(om[2]) > 0)
+        if not nontriv and p not in info["not_nontrivial"]:
+            info["not_nontrivial"].append(p)
+            fails.append(("e2e-recipe:" + p, "the recipe `gotree %s` does not run successfully (rc %d, stderr %r): the differential would be vacuous"
+                          % (" ".join(jobs[(p, None, "omitted")]), om[0], om_err[-300:]), None))
+        if gv != om:
+            a, b = jobs[(p, None, "omitted")], jobs[(p, n, "given")]
+            fails.append(("e2e:%s --%s" % (p, n),
+                          "`gotree %s` and `gotree %s` (documented default given explicitly) differ: omitted %s ; given %s"
+                          % (" ".join(a), " ".join(b), show(om), show(gv)),
+                          {"cmdline_omitted": "gotree " + " ".join(a), "cmdline_given": "gotree " + " ".join(b),
+                           "out_omitted": show(om), "out_given": show(gv), "stderr_given": gv_err[-300:].decode("utf-8", "replace")}))
+        if alt is not None:
+            al, _ = res[(p, n, "alt")]
+            info["liveness_run"] += 1
+            changed = al != om
+            if changed:
+                info["liveness_changed_output"] += 1
+                live_seen.append("%s --%s" % (p, n))
+            else:
+                info.setdefault("alternative_value_changed_nothing", []).append("%s --%s=%s" % (p, n, alt))
+            if "%s --%s" % (p, n) in E2E_LIVE:
+                info["liveness_asserted"] += 1
+                if not changed:
+                    a, b = jobs[(p, None, "omitted")], jobs[(p, n, "alt")]
+                    fails.append(("e2e-dead:%s --%s" % (p, n),
+                                  "`gotree %s` and `gotree %s` (a value different from the documented default) give the same result: the command does not use the value of the option it registered"
+                                  % (" ".join(a), " ".join(b)),
+                                  {"cmdline_omitted": "gotree " + " ".join(a), "cmdline_alternative": "gotree " + " ".join(b), "out_both": show(om)}))
+    info["live_seen"] = live_seen
+    info["slowest_runs"] = sorted(slow, reverse=True)[:4]
+    info["evaluations"] = len(jobs)
+    info["seconds"] = round(time.time() - t0, 2)
+    return fails, info
+
 def extra(tier, seed, st):
     """For every option-presence test found in the source (cmd.Flags().Changed): run the command with the option
-    omitted and with its documented default given explicitly; the outputs must be identical."""
+    omitted and with its documented default given explicitly; the outputs must be identical.  Then the same differential
+    for every (command with a recipe, registered option): _e2e."""
     info = {"presence_tests": 0, "evaluations": 0, "distinct_nontrivial": 0, "differentials": {}}
     regs, changed = _tables()
     info["presence_tests"] = len(changed)
@@ -98,6 +392,13 @@ def extra(tier, seed, st):
                                   {"argv_omitted": argv, "argv_given": argv + given,
                                    "out_omitted": b"\n".join(omitted[1]).decode("utf-8", "replace")[:800], "out_given": b"\n".join(out[1]).decode("utf-8", "replace")[:800]}))
         info["samples"] = [{"differential": k, **v} for k, v in list(info["differentials"].items())[:5]]
+        try:
+            f2, i2 = _e2e(tier, rng, g, d, regs, set((c, f) for _, c, f in changed))
+        except Exception as e:   # a crash of the machinery must not pass silently
+            import traceback
+            f2, i2 = [("e2e:machinery", "end-to-end differential crashed: " + traceback.format_exc()[-600:], None)], {}
+        fails += f2
+        info["e2e"] = i2
     finally:
         shutil.rmtree(d, ignore_errors=True)
     return fails, info
